@@ -172,6 +172,31 @@ func verifControlField(name string) string {
 	return name[:len(name)]
 }
 
+// PERSIST-10 must fire: id from a count, never compared with the ids in use
+func (i *Instance) verifControlNewIDBad(node nodes.Node) {
+	i.nodeIDs[node] = fmt.Sprintf("Node-%d", len(i.nodeIDs)+1)
+}
+
+// PERSIST-10 must stay silent: probe in a helper, retry loop
+func (i *Instance) verifControlNewIDGood(node nodes.Node) {
+	n := len(i.nodeIDs)
+	id := fmt.Sprintf("Node-%d", n)
+	for i.verifControlUsed(id) {
+		n++
+		id = fmt.Sprintf("Node-%d", n)
+	}
+	i.nodeIDs[node] = id
+}
+
+func (i *Instance) verifControlUsed(id string) bool {
+	for _, used := range i.nodeIDs {
+		if used == id {
+			return true
+		}
+	}
+	return false
+}
+
 // must fire: id removed before the producers are compared with it
 func (i *Instance) verifControlDeleteBad(nodeId string) {
 	for n, id := range i.nodeIDs {
@@ -238,7 +263,9 @@ func (p *verifControlBadParam) FromJSON(decoder jbtf.Decoder, body []byte) (err 
 		return
 	}
 	p.Name = gn.Note
-	p.Note = gn.Name
+	if len(gn.Name) > 0 { // PERSIST-12: applied only when the saved value is not the zero value
+		p.Note = gn.Name
+	}
 	if gn.Default != nil {
 		p.Default = gn.Default.Data
 	}
@@ -335,6 +362,8 @@ const graphControlSrc = `package graph
 
 import (
 	"encoding/json"
+	"fmt"
+	"maps"
 	"sort"
 
 	"github.com/EliCDavis/jbtf"
@@ -351,6 +380,12 @@ func (i *Instance) verifControlApplyBad(jsonPayload []byte) error {
 		return err
 	}
 	decoder, _ := jbtf.NewDecoder(jsonPayload)
+	for key := range appSchema.Metadata {
+		if key != "notes" {
+			delete(appSchema.Metadata, key) // PERSIST-13: filtered
+		}
+	}
+	i.metadata.OverwriteData(appSchema.Metadata)
 	createdNodes := make(map[string]nodes.Node)
 	for nodeID, instanceDetails := range appSchema.Nodes {
 		casted := i.typeFactory.New(instanceDetails.Type).(nodes.Node)
@@ -391,6 +426,7 @@ func (i *Instance) verifControlApplyGood(jsonPayload []byte) error {
 	if err != nil {
 		return err
 	}
+	i.metadata.OverwriteData(maps.Clone(appSchema.Metadata))
 	byID := make(map[string]nodes.Node)
 	for id, details := range appSchema.Nodes {
 		n, ok := i.typeFactory.New(details.Type).(nodes.Node)
@@ -564,6 +600,16 @@ func (k *checker) finishControls() {
 		k.save3On(f, "control.SchemaStale")
 		k.save3On(c.P.Func("generator", "App.verifControlSchemaFresh"), "control.SchemaGoodFresh")
 	}
+	if f := c.P.Func("generator/graph", "Instance.verifControlNewIDBad"); f != nil {
+		if table := k.idTableName(); table != "" {
+			k.persist10On(f, "control.NewIDBad", table)
+			k.persist10On(c.P.Func("generator/graph", "Instance.verifControlNewIDGood"), "control.NewIDGood", table)
+		}
+	}
+	if get("verifControlApplyBad") {
+		k.persist13Load(c.P.Func("generator/graph", "Instance.verifControlApplyBad"), "control.ApplyBad")
+		k.persist13Load(c.P.Func("generator/graph", "Instance.verifControlApplyGood"), "control.ApplyGood")
+	}
 	if f := c.P.Func("generator/graph", "Instance.verifControlSortBad"); f != nil {
 		k.persist8Sorts(f, "control.SortBad")
 		k.persist8Sorts(c.P.Func("generator/graph", "Instance.verifControlSortGood"), "control.SortGood")
@@ -604,6 +650,9 @@ func (k *checker) finishControls() {
 		{"SAVE-3", "control.SchemaStale#fresh-encoder"},
 		{"PERSIST-8", "control.SortBad#sort"},
 		{"PERSIST-9", "verifControlPayloadParam#payload.Loose"},
+		{"PERSIST-10", "control.NewIDBad#unique-id"},
+		{"PERSIST-12", "verifControlBadParam.FromJSON#Name"},
+		{"PERSIST-13", "control.ApplyBad#metadata-whole"},
 	}
 	for _, w := range bad {
 		v := ob.Holds
@@ -621,7 +670,7 @@ func (k *checker) finishControls() {
 		}
 		c.R.Control("PERSIST-9", "control:good", "zz_verif_control_c12.go", v, ob.Holds, "a length-delimited payload type must hold")
 	}
-	for _, rule := range []string{"PERSIST-1", "PERSIST-2", "PERSIST-3", "PERSIST-4", "PERSIST-6", "PERSIST-7", "SAVE-1", "SAVE-2", "SAVE-3", "PERSIST-8"} {
+	for _, rule := range []string{"PERSIST-1", "PERSIST-2", "PERSIST-3", "PERSIST-4", "PERSIST-6", "PERSIST-7", "SAVE-1", "SAVE-2", "SAVE-3", "PERSIST-8", "PERSIST-10", "PERSIST-12", "PERSIST-13"} {
 		v := ob.Holds
 		var msgs []string
 		for _, f := range k.ctl.fired[rule] {
